@@ -6,6 +6,7 @@
 use crate::sim_args::Args;
 use crate::sim_entropy::Plan;
 use crate::sim_exec::ExecEnv;
+use crate::sim_pool::{Reply, WorkerProc};
 use crate::sim_group::{self, Envs, Outcome, Shape, Spec, Tier};
 use crate::sim_harvest;
 use crate::sim_inproc;
@@ -114,10 +115,13 @@ pub fn outcome_json(spec: &Spec, out: &Outcome, with_obs: bool, with_orders: boo
         "colour": spec.colour.name(),
         "launcher": if spec.tier == Tier::Exec {
             spec.launcher.as_str()
-        } else if spec.mode == "main" && sim_inproc::real_main_available() {
-            "thread:real-main-run"
         } else {
-            "thread:stages"
+            match (spec.isolation.as_str(), spec.mode == "main" && sim_inproc::real_main_available()) {
+                ("process", true) => "process-per-launch:real-main-run",
+                ("process", false) => "process-per-launch:stages",
+                (_, true) => "thread-per-launch:real-main-run",
+                (_, false) => "thread-per-launch:stages",
+            }
         },
         "file_hash": format!("{:016x}", fnv(&spec.source)),
         "file_len": spec.source.len(),
@@ -153,6 +157,58 @@ pub fn shape_for(args: &Args, tier: Tier) -> Shape {
     }
 }
 
+/// Hand a job to the clean sub-worker (started on first use, restarted after a failure).
+fn delegate(
+    clean: &mut Option<WorkerProc>,
+    args: &Args,
+    job: &Value,
+    timeout: Duration,
+) -> Result<Value, (&'static str, String)> {
+    if clean.is_none() {
+        let mut sub = args.clone();
+        sub.role = "clean".to_owned();
+        *clean = WorkerProc::spawn(&sub).ok();
+    }
+    let Some(w) = clean.as_mut() else {
+        return Err(("skipped_resource", "could not start the clean sub-worker".to_owned()));
+    };
+    match w.request(job, timeout) {
+        Reply::Ok(v) => Ok(v),
+        Reply::TimedOut => {
+            *clean = None;
+            Err(("skipped_divergent", "group exceeded the wall-clock cap".to_owned()))
+        }
+        Reply::Died(how) => {
+            *clean = None;
+            Err(("skipped_resource", format!("clean sub-worker ended: {how}")))
+        }
+    }
+}
+
+/// Record for a group whose process ended without a reply.
+pub fn stub_json(spec: &Spec, idx: usize, status: &str, note: &str) -> Value {
+    json!({
+        "idx": idx,
+        "tier": spec.tier.name(),
+        "family": spec.family,
+        "form": spec.form.name(),
+        "colour": spec.colour.name(),
+        "launcher": "none",
+        "file_hash": format!("{:016x}", fnv(&spec.source)),
+        "file_len": spec.source.len(),
+        "status": status,
+        "note": note,
+        "launches": 0,
+        "class": "none",
+        "nontrivial": false,
+        "fired": {},
+        "inert": 0,
+        "event": "0",
+        "orders": [],
+        "keys": [],
+    })
+}
+
 pub fn worker_main(args: &Args) -> i32 {
     // Panics of gram code inside launch threads are observations, not noise for our stderr.
     std::panic::set_hook(Box::new(|_| {}));
@@ -164,6 +220,7 @@ pub fn worker_main(args: &Args) -> i32 {
     let Some(mut reply_channel) = sim_inproc::detach_stdout() else {
         return 2;
     };
+    let mut clean: Option<WorkerProc> = None;
     for line in stdin.lock().lines() {
         let Ok(line) = line else { break };
         if line.trim().is_empty() {
@@ -179,9 +236,21 @@ pub fn worker_main(args: &Args) -> i32 {
                 let spec = sim_group::derive_spec(args.seed, tier, idx, &corpus, shape_for(args, tier));
                 let tag = format!("{}-g{}", tier.name(), idx);
                 let t0 = std::time::Instant::now();
-                let out = sim_group::run_spec(&spec, &envs, &tag, true);
-                let mut v = outcome_json(&spec, &out, false, true);
-                v["idx"] = json!(idx);
+                let run = || {
+                    let out = sim_group::run_spec(&spec, &envs, &tag, true);
+                    let mut v = outcome_json(&spec, &out, false, true);
+                    v["idx"] = json!(idx);
+                    v
+                };
+                let mut v = if tier == Tier::InProc && spec.isolation == "process" && args.role != "clean" {
+                    // Process-isolated groups are served by a sub-worker that never runs gram code
+                    // in its own address space (every launch is a forked child of it), so that
+                    // process-wide state is pristine at every launch. See `sim_fork`.
+                    delegate(&mut clean, args, &job, Duration::from_millis(args.cap_ms * 9 / 10))
+                        .unwrap_or_else(|(status, note)| stub_json(&spec, idx, status, &note))
+                } else {
+                    run()
+                };
                 // wall time is reported for tuning only; it feeds no decision and no event hash
                 v["wall_ms"] = json!(t0.elapsed().as_millis() as u64);
                 v
@@ -191,8 +260,16 @@ pub fn worker_main(args: &Args) -> i32 {
                     continue;
                 };
                 let tag = "probe".to_owned();
-                let out = sim_group::run_spec(&spec, &envs, &tag, false);
-                outcome_json(&spec, &out, true, false)
+                let run = || {
+                    let out = sim_group::run_spec(&spec, &envs, &tag, false);
+                    outcome_json(&spec, &out, true, false)
+                };
+                if spec.tier == Tier::InProc && spec.isolation == "process" && args.role != "clean" {
+                    let cap = Duration::from_millis(args.cap_ms * (spec.plans.len() as u64 + 1));
+                    delegate(&mut clean, args, &job, cap).unwrap_or_else(|(status, note)| stub_json(&spec, 0, status, &note))
+                } else {
+                    run()
+                }
             }
             Some("orders") => {
                 // canary of the in-process seam
